@@ -69,6 +69,10 @@ def main():
             return ("C14",)
         if name in ("Node_elapsed", "Node_state_charge"):
             return ("C17",)
+        if name.endswith(("_pick", "_index")) and name.split("_")[1] in ("worker", "behaviour", "gather"):
+            return ("C15",)                     # which granted request a node commits to, and the index it records
+        if name.endswith("_withdraw"):
+            return ("C10",)                     # ... and the requests it withdraws
         if name == "Sink_cycle_increment" or name.endswith(("_level_increment", "_level_count")):
             return ("C18",)
         return ()
@@ -79,7 +83,8 @@ def main():
                           ("theories/Nodes/TieAcc.vo", ("C15", "C17")),
                           ("theories/Edges/TieBelt.vo", ("C12", "C13")),
                           ("theories/Nodes/TieNodes.vo", ("C08", "C16")),
-                          ("theories/Factory/TieStats.vo", ("C14", "C17", "C18"))):
+                          ("theories/Factory/TieStats.vo", ("C14", "C17", "C18")),
+                          ("theories/Factory/TieCommit.vo", ("C10", "C15"))):
         if pid in props:
             okt, logt = lib.build_coq_target(target)
             if not okt:
